@@ -121,11 +121,12 @@ def mkstr(s):
 
 class Dec:
     """rust_decimal::Decimal = m * 10^-s ; m Python int or z3 Int term, s concrete 0..28"""
-    __slots__ = ('m', 's')
+    __slots__ = ('m', 's', 'src')
 
-    def __init__(self, m, s):
+    def __init__(self, m, s, src=None):
         self.m = m
         self.s = s
+        self.src = src      # (neg, int_digit_bytes, frac_digit_bytes) when parsed from symbolic text
 
     def __repr__(self):
         return 'Dec(%r,%d)' % (self.m, self.s)
@@ -133,10 +134,11 @@ class Dec:
 
 class DecStr:
     """the String produced by Decimal::to_string for a Decimal with symbolic mantissa"""
-    __slots__ = ('d',)
+    __slots__ = ('d', 'text')
 
-    def __init__(self, d):
+    def __init__(self, d, text=None):
         self.d = d
+        self.text = text    # tuple of (symbolic) bytes when the digits are known, else None
 
 
 class Closure:
